@@ -1044,6 +1044,7 @@ func gen() {
 	fmt.Printf("Definition UdpHeaderLen : N := %s.     (* tunnel->UDP: for buffered-processed >= _ *)\n", one("cmp:buffered-processed>=", 0))
 	fmt.Printf("Definition UdpWriteBatch : N := %s.    (* tunnel->UDP: const batchSize *)\n", one("const:batchSize", 0))
 	fmt.Printf("Definition UdpBatchWriterCap : N := %s. (* tunnel->UDP: newUDPBatchWriter(realUDP, _): messages the sendmmsg writer can hold *)\n", one("call:newUDPBatchWriter", 0))
+	defer genRetryTable()
 	fmt.Printf("Definition UdpFlushAtLeast : bool := %s. (* tunnel->UDP: the in-loop flush test is len(pendingPackets) >= batchSize *)\n", flushCmp(udp))
 }
 
@@ -1065,6 +1066,56 @@ func flushCmp(fn *ast.FuncDecl) string {
 		return true
 	})
 	return found
+}
+
+// probeRetries: does the real relay come back for more after a STICKY read failure of the given kind at the given
+// site (0 UDP relay/tunnel end, 1 UDP relay/local end, 2 Bidirectional/A end, 3 Bidirectional/B end)?  The fakes park a
+// goroutine that reads an ended endpoint more than spinLimit times, so a retrying relay is observed, not waited for.
+func probeRetries(site, kind int) bool {
+	caseKinds = []int{kind}
+	none := streamSpec{WLimit: -1, Gate: -1, Lax: true}
+	switch site {
+	case 0:
+		t := none
+		t.End = kind
+		o, _, _ := runUDP(nil, 0, -1, -1, t, true)
+		return o.Spin != "" || !o.Returned
+	case 1:
+		o, _, _ := runUDP(nil, kind, -1, -1, none, true)
+		return o.Spin != "" || !o.Returned
+	default:
+		c := &caseIn{Mode: "tcp", A: none, B: none, Big: true}
+		if site == 2 {
+			c.A.End = kind
+		} else {
+			c.B.End = kind
+		}
+		out := &caseOut{PropOK: true}
+		runTCPCase(c, out)
+		return out.T.Spin != "" || !out.T.Returned
+	}
+}
+
+func genRetryTable() {
+	fmt.Println("(* does the relay read again after a sticky read failure?  (site, kind, retried), probed on the real relays;")
+	fmt.Println("   site: 0 UDP/tunnel end, 1 UDP/local end, 2 Bidirectional/A, 3 Bidirectional/B;")
+	for k, n := range kindNames {
+		fmt.Printf("   kind %d = %s\n", k, n)
+	}
+	fmt.Println("*)")
+	fmt.Println("Definition relay_retry_table : list (N * N * bool) := [")
+	first := true
+	for site := 0; site < 4; site++ {
+		for kind := 0; kind < len(kindErrs); kind++ {
+			sep := ";"
+			if first {
+				sep = " "
+				first = false
+			}
+			fmt.Printf(" %s(%d, %d, %v)\n", sep, site, kind, probeRetries(site, kind))
+		}
+	}
+	fmt.Println("].")
 }
 
 func keys(m map[string][]constant.Value) []string {
